@@ -22,7 +22,7 @@ WALL = {"quick": 280, "thorough": 3500}
 RULE = ("one run = document + history of adds/renames to fresh and used identifiers + removals; "
         "distinct = distinct (namespace digest, op) pairs")
 PROBES = ["dup_same_type", "dup_other_type", "dup_vs_id_tag", "rename_used", "rename_fresh", "group_merge",
-          "int_names", "unused_name", "lookup_unused", "complement_link"]
+          "int_names", "unused_name", "lookup_unused", "complement_link", "mention_clash"]
 
 
 def gen(streams, tier, i):
@@ -103,6 +103,22 @@ def gen(streams, tier, i):
             m.add_text(ln)
         elif r < 0.70:
             ops.append({"op": "unused_name"})
+        elif r < 0.74 and any(ns[x][0].rt != "S" for x in names):
+            # a line mentions, where a segment is expected, an identifier carried by a line of another type:
+            # accepting it would put a placeholder segment of the same name into the namespace
+            bad = hr.choice([x for x in names if ns[x][0].rt != "S"])
+            segs = [x for x in names if ns[x][0].rt == "S"]
+            other = hr.choice(segs) if segs and hr.random() < 0.7 else sh.fresh(hr)
+            a, b = (bad, other) if hr.random() < 0.5 else (other, bad)
+            if version == "gfa1":
+                ln = hr.choice(["L\t%s\t+\t%s\t-\t*" % (a, b), "C\t%s\t+\t%s\t+\t0\t*" % (a, b),
+                                "P\t%s\t%s+,%s+\t*" % (sh.fresh(hr), a, b)])
+            else:
+                ln = hr.choice(["E\t%s\t%s+\t%s+\t0\t1\t0\t1\t*" % (sh.fresh(hr), a, b),
+                                "G\t%s\t%s-\t%s+\t10\t*" % (sh.fresh(hr), a, b),
+                                "E\t*\t%s+\t%s-\t0\t1\t0\t1\t*" % (a, b),
+                                "F\t%s\tread1+\t0\t1\t0\t1\t*" % bad])
+            ops.append({"op": "add", "line": ln, "as": hr.choice(["str", "obj"])})
         elif r < 0.78 and version == "gfa1":
             links = [x for x in m.recs if x.rt == "L"]
             if links:
@@ -132,6 +148,8 @@ def expected_add(m, line):
         return "noop"
     if res == ("fail", "NotUnique"):
         return "notunique"
+    if res == ("fail", "mention-clash"):
+        return "mention-clash"
     return None
 
 
@@ -227,6 +245,14 @@ def run(scn, st):
                                          (n, op["line"], nm, prev.render(),
                                           "was accepted" if out.ok else "raised %s" % out.excname),
                                          op=kind, rt=pl.rt, prev=prev.rt, exc=out.excname)
+            elif exp == "mention-clash":
+                st.count("probe.mention_clash")
+                if out.ok or out.excname != "NotUniqueError":
+                    raise core.Violation("mention-clash-accepted",
+                                         "step %d: %r uses, where a segment is expected or as its own name, an identifier "
+                                         "which a line of another type carries or mentions; it %s" %
+                                         (n, op["line"], "was accepted" if out.ok else "raised %s" % out.excname),
+                                         op=kind, rt=pl.rt, exc=out.excname)
             elif exp == "ok":
                 if not out.ok:
                     raise core.Violation("fresh-rejected", "step %d: %r is legal but raised %s: %s" %
